@@ -3,6 +3,7 @@ package vnete2e
 import (
 	"fmt"
 	"net"
+	"sync"
 	"testing"
 	"time"
 
@@ -30,7 +31,7 @@ type e2eMapping struct {
 	tb, tr    time.Time       // last outbound through it: written at, received at
 }
 
-const ruleNATExpiry = "end-to-end history through real routers on the real clock: LAN router with NAPT (all 9 mapping x filtering behaviours, mapping lifetime 30 ms), 2 client sockets, 3 server sockets on 2 WAN hosts (same IP two ports, other IP); 4..24 steps of outbound(client, server), inbound(server, learned external address), pause of 1/6, 1/2 or 2/3 lifetime, pause past the lifetime of every mapping; the translator evaluates expiry with time.Now() when it processes a datagram, which lies between the write and the receipt, so: an outbound received before tb_last+L must show the mapping's external address again; an inbound whose FIFO marker (same server, through the just-refreshed mapping of a third client) arrives before tb_last+L must be forwarded iff the sender is permitted by the filtering behaviour, to the owner, with source and payload unchanged; an inbound sent after tr_last+L must be dropped although inbound traffic kept arriving in between (inbound never prolongs) and the next outbound gets a mapping whose address no certainly-live mapping holds; cases in which the harness misses its own timing window are abandoned without verdict; non-trivial = at least one certainly-expired decision and one certainly-live reuse; distinct by hash of the steps"
+const ruleNATExpiry = "end-to-end history through real routers on the real clock: LAN router with NAPT (all 9 mapping x filtering behaviours, mapping lifetime 30 ms; a third of these routers with a MinDelay of a third or half of the lifetime, and chunk filters on both routers that note when each outbound datagram was taken off the LAN router's queue - before its translation - and off the WAN router's - after it), 2 client sockets, 3 server sockets on 2 WAN hosts (same IP two ports, other IP); 4..24 steps of outbound(client, server), inbound(server, learned external address), pause of 1/6, 1/2 or 2/3 lifetime, pause past the lifetime of every mapping; the translator evaluates expiry with time.Now() when it processes a datagram, which lies between the write and the receipt (between the two noted times for outbound datagrams), so: an outbound received before tb_last+L must show the mapping's external address again; an inbound whose FIFO marker (same server, through the just-refreshed mapping of a third client) arrives before tb_last+L must be forwarded iff the sender is permitted by the filtering behaviour, to the owner, with source and payload unchanged; an inbound sent after tr_last+L must be dropped although inbound traffic kept arriving in between (inbound never prolongs) and the next outbound gets a mapping whose address no certainly-live mapping holds; cases in which the harness misses its own timing window are abandoned without verdict; non-trivial = at least one certainly-expired decision and one certainly-live reuse; distinct by hash of the steps"
 
 func runNATExpiry(t *rapid.T, c *ev.Case, focus string) {
 	const life = 30 * time.Millisecond
@@ -47,12 +48,45 @@ func runNATExpiry(t *rapid.T, c *ev.Case, focus string) {
 	defer wan.Stop() //nolint:errcheck
 	h1, _ := vnet.NewNet(&vnet.NetConfig{StaticIPs: []string{"27.0.0.50"}})
 	h2, _ := vnet.NewNet(&vnet.NetConfig{StaticIPs: []string{"27.0.0.51"}})
+	// A third of the NAT routers hold every datagram back for a third or half of the
+	// lifetime: the lifetime of a mapping runs from translation to translation, wherever in
+	// the router the datagram spent its time before.
+	delay := rapid.SampledFrom([]time.Duration{0, 0, 0, 0, life / 3, life / 2}).Draw(t, "natRouterMinDelay")
+	if delay > 0 {
+		c.Label("nat-router/min-delay")
+	}
 	lan, err := vnet.NewRouter(&vnet.RouterConfig{
-		CIDR: "192.168.0.0/24", StaticIPs: []string{"27.0.0.1"}, LoggerFactory: lf,
+		CIDR: "192.168.0.0/24", StaticIPs: []string{"27.0.0.1"}, LoggerFactory: lf, MinDelay: delay,
 		NATType: &vnet.NATType{MappingBehavior: dep[mb], FilteringBehavior: dep[fb], MappingLifeTime: life},
 	})
 	if err != nil {
 		t.Fatalf("VERIF-INFRA: %v", err)
+	}
+	// Chunk filters run when a router takes a datagram off its queue, before it translates
+	// (LAN router) resp. after it has been translated (WAN router): the translation of the
+	// outbound datagram with payload p happened in [seenLAN[p], seenWAN[p]].
+	var seenMu sync.Mutex
+	seenLAN, seenWAN := map[string]time.Time{}, map[string]time.Time{}
+	note := func(m map[string]time.Time) func(vnet.Chunk) bool {
+		return func(ch vnet.Chunk) bool {
+			now := time.Now()
+			seenMu.Lock()
+			if _, dup := m[string(ch.UserData())]; !dup {
+				m[string(ch.UserData())] = now
+			}
+			seenMu.Unlock()
+			return true
+		}
+	}
+	lan.AddChunkFilter(note(seenLAN))
+	wan.AddChunkFilter(note(seenWAN))
+	seen := func(m map[string]time.Time, p string, fallback time.Time) time.Time {
+		seenMu.Lock()
+		defer seenMu.Unlock()
+		if at, ok := m[p]; ok {
+			return at
+		}
+		return fallback
 	}
 	lh, _ := vnet.NewNet(&vnet.NetConfig{StaticIPs: []string{"192.168.0.10"}})
 	for _, e := range []error{wan.AddNet(h1), wan.AddNet(h2), lan.AddNet(lh), wan.AddRouter(lan), wan.Start()} {
@@ -137,6 +171,8 @@ func runNATExpiry(t *rapid.T, c *ev.Case, focus string) {
 		if !ok || got != msg {
 			t.Fatalf("C02/C01: outbound datagram %q from client %d to %s did not arrive (got %q, %v)", msg, cl, srvAddr[sv], got, ok)
 		}
+		// translated after the LAN router took it off its queue, before the WAN router did
+		tb, tr = seen(seenLAN, msg, tb), seen(seenWAN, msg, tr)
 		ext := from.String()
 		t.Logf("outbound c%d -> %s: external %s", cl, srvAddr[sv], ext)
 		if !from.IP.Equal(net.ParseIP("27.0.0.1")) || from.Port < 1 || from.Port > 65535 {
